@@ -143,6 +143,17 @@ CHECKS = {
             'Trusts the per-handle model; fixed tree layout with identifier names; singletons judged by the '
             'load counter.',
             'DESIGN.md section 3 / C12'),
+    'C16': ('exploration',
+            'property-based testing (Hypothesis): generated file trees materialised in a temp dir, generated '
+            'rules / options / repeated calls, differential oracle = independent os.walk reference producing '
+            'the expected (key, rule, file) productions',
+            'Randomised search with shrinking over directory trees (odd names, double extensions, empty dirs, '
+            'equal stems), rule lists (filters, extra args, missing and regular-file paths, overlapping), both '
+            'option values at construction and per call, repeated population and root override; the full set '
+            'of reachable keys in all layers is compared with the reference, constructor arguments included.',
+            'Local case-sensitive file system, no hidden files, no symlinks; which same-key file of one call '
+            'wins is not fixed; directory names and file stems from disjoint pools.',
+            'DESIGN.md section 3 / C16'),
     'C17': ('exploration',
             'property-based testing (Hypothesis): generated resource trees with identifier and non-identifier '
             'names, round-trip (mirror) oracle against the source map, mutation attempts on every snapshot node',
